@@ -179,7 +179,67 @@ def unit_mixed(item):
     return p
 
 
+def unit_unbatched(item):
+    """DPP / MDPP support instances WITHOUT a batch dimension (generator([]) builds them, _get_reward special-cases
+    them): all mask-admitted selection orders of generator-made un-batched instances, stepped one TensorDict at a time."""
+    _, key, tier, seed = item
+    spec = SPECS[key]
+    p = Partial()
+    size, quota = 3, 2
+    env = spec.env(dict(size=size, quota=quota))
+    for j in range(3 if tier == "quick" else 8):
+        with torch.random.fork_rng():
+            torch.manual_seed(8300 + 97 * seed + j)
+            inst_td = env.generator([])
+        probes = inst_td["probe"].bool().nonzero().flatten().tolist() if spec.multi else [int(inst_td["probe"].reshape(-1)[0])]
+        mask0 = inst_td["action_mask"].bool().tolist()
+        keepout = [c for c in range(size * size) if not mask0[c] and c not in probes]
+        forb = set(keepout) | set(probes)
+        rec0 = dict(kind="sel_unbatched", spec=spec.key, draw=j, seed=seed)
+        if sum(1 for c in range(size * size) if c not in forb) < quota:
+            continue
+        try:
+            root = env.reset(inst_td.clone())
+        except Exception as e:  # noqa: BLE001
+            p.violation(sig(PID, spec, f"crash:{type(e).__name__}", "unbatched_reset"), rec0, f"{spec.key}: reset of an un-batched generator instance raised {type(e).__name__}: {str(e)[:100]}")
+            continue
+        stack = [((), root)]
+        bad = None
+        while stack and bad is None:
+            h, td = stack.pop()
+            done = bool(td["done"].reshape(-1)[0]) if "done" in td.keys() else False
+            p.add(states=1, evaluations=1, distinct_count=1)
+            if len(set(h)) != len(h) or forb & set(h):
+                bad = ("selection", "unbatched", f"selection {list(h)} repeats an item or takes a forbidden one {sorted(forb & set(h))}")
+                break
+            if done != (len(h) >= quota):
+                bad = ("done", "unbatched", f"done={done} after {len(h)} selections, quota {quota}")
+                break
+            if done:
+                continue
+            offered = td["action_mask"].reshape(-1).nonzero().flatten().tolist()
+            if not offered:
+                bad = ("mask", "unbatched", f"no item on offer after {list(h)}")
+                break
+            for a in offered:
+                t = td.clone()
+                t.set("action", torch.tensor(a))
+                try:
+                    nxt = env.step(t)["next"]
+                except Exception as e:  # noqa: BLE001
+                    bad = (f"crash:{type(e).__name__}", "unbatched", f"step {a} after {list(h)} on an un-batched instance raised {type(e).__name__}: {str(e)[:100]}")
+                    break
+                p.add(transitions=1, traces_validated_against_impl=1)
+                stack.append((h + (a,), nxt))
+        if bad is not None:
+            p.violation(sig(PID, spec, bad[0], bad[1]), dict(rec0, actions=list(h)), f"{spec.key} (un-batched generator instance, probes {probes}, keep-out {keepout}): {bad[2]}")
+        p.outcome(f"{spec.key}|unbatched|{'ok' if bad is None else bad[0]}")
+    return p
+
+
 def dispatch(item):
+    if item[0] == "unbatched":
+        return unit_unbatched(item)
     return unit_mixed(item) if item[0] == "mixed" else unit(item)
 
 
@@ -193,13 +253,17 @@ def main(tier):
     only = os.environ.get("VERIF_ONLY")
     items = [(k, tier, seed) for k in SPECS if not only or only in k]
     items += [("mixed", k, tier, seed) for k in ("flp", "mcp") if not only or only in k]
+    items += [("unbatched", k, tier, seed) for k in ("dpp", "mdpp") if not only or only in k]
     rep.merge_all(pmap(dispatch, items))
-    rep.extra["environments"] = sorted({i[0] if i[0] != "mixed" else i[1] for i in items})
+    rep.extra["environments"] = sorted({i[0] if i[0] not in ("mixed", "unbatched") else i[1] for i in items})
     return rep.finish()
 
 
 def replay(rec):
     spec = SPECS[rec["spec"]]
+    if rec.get("kind") == "sel_unbatched":
+        p = unit_unbatched(("unbatched", rec["spec"], "thorough", rec.get("seed", 0)))
+        return bool(p.violations), "; ".join(v["msg"] for v in p.violations[:2]) or "un-batched episodes select exactly the quota of allowed items"
     if rec.get("kind") == "sel_mixed":
         insta, instb = rec["a"]["instance"], rec["b"]["instance"]
         qa, qb = quota_of(spec, insta), quota_of(spec, instb)
